@@ -2,19 +2,26 @@
 
 VERUS_UNITS = {
     "u4_policy": dict(template="units/u4_policy.vrs", rlimit=80),
+    "u1_estimator": dict(template="units/u1_estimator.vrs", rlimit=80),
 }
 
 # Kani harness groups: appended as a child module to `file` in a scratch copy of /repo
 KANI_GROUPS = {
+    "bbloom": dict(file="src/bbloom.rs", include="kani/bbloom.rs", args=[], timeout=1200,
+                   trusted=["kani/bbloom: little-endian target (x86-64) byte order; layouts of 8 (quick) and 16 (thorough) words; Bloom::new builds 2^k-bit arrays whose addressing code does not depend on the length"]),
 }
 
 # lane R: executable oracles of the same contracts, appended as #[cfg(test)] child modules
 REPLAY_GROUPS = {
+    "estimator": dict(file="src/policy.rs", include="replay/estimator.rs"),
 }
 
 PROPS = {
     "C01": dict(units=["u4_policy"], kani=[], replay=[]),
-    "C07": dict(units=["u4_policy"], kani=[], replay=[]),
+    "C07": dict(units=["u4_policy", "u1_estimator"], kani=[], replay=[]),
+    "C13": dict(units=["u1_estimator"], kani=["bbloom"], replay=["estimator"]),
+    "C14": dict(units=["u1_estimator"], kani=["bbloom"], replay=["estimator"]),
+    "C20": dict(units=["u1_estimator"], kani=["bbloom"], replay=["estimator"]),
 }
 
 ASSUMPTIONS = {
